@@ -14,12 +14,6 @@ package boltz
 //@   nosafety
 //@   modifies *
 
-//@ func (*ChildStoreUpdateHandler).HandleUpdate
-//@   props C07
-//@   errflow
-//@   nosafety
-//@   modifies *
-
 //@ func (*DbImpl).Batch
 //@   props C07
 //@   errflow
